@@ -74,11 +74,11 @@ BinOp(op, a, b, heap, off) ==
     ELSE IF op = "*" THEN MulN(a, b)
     ELSE IF op = "/" THEN
         IF IsQ(b) /\ b.n = 0 THEN DivZero
-        ELSE IF IsQ(a) /\ IsQ(b) THEN DivQ(a, b) ELSE AnyNum
+        ELSE IF IsQ(a) /\ IsQ(b) THEN DivQ(a, b) ELSE PowWild
     ELSE IF op = "%" THEN
         IF IsQ(b) /\ b.n = 0 THEN DivZero
         ELSE IF IsQ(a) /\ IsQ(b) /\ a.d = 1 /\ b.d = 1 /\ a.n >= 0 /\ b.n > 0 THEN IntV(a.n % b.n)
-        ELSE AnyNum
+        ELSE IF IsQ(a) /\ IsQ(b) THEN AnyNum ELSE PowWild
     ELSE \* "**"
         IF IsQ(a) /\ IsQ(b) THEN
             IF b.d = 1 /\ b.n >= 0 /\ b.n <= 64 THEN
